@@ -134,6 +134,7 @@ pub fn repr(m: &'static Model) -> BoxedStrategy<Repr> {
         1 => (any::<u16>(), pre).prop_map(|(split, pre)| Repr::Prepended { split, pre }),
         1 => (1..64u8).prop_map(|head| Repr::RawBitVec { head }),
         1 => flank(m, 70).prop_map(|junk| Repr::Refilled { junk }),
+        1 => (pre_flank(m), flank(m, 3)).prop_map(|(pre, post)| Repr::CollectedSlices { pre, post }),
         1 => (0..64u8).prop_map(|head| Repr::FromBitSlice { head }),
         1 => (pre_flank(m), any::<bool>()).prop_map(|(pre, cleared)| Repr::InsertedIntoEmpty { pre, cleared }),
         1 => (any::<u16>(), flank(m, 70)).prop_map(|(split, junk)| Repr::TruncExtend { split, junk }),
@@ -163,6 +164,7 @@ pub fn owned_repr(m: &'static Model) -> BoxedStrategy<Repr> {
         1 => (any::<u16>(), pre.clone()).prop_map(|(split, pre)| Repr::Appended { split, pre }),
         1 => (any::<u16>(), pre).prop_map(|(split, pre)| Repr::Prepended { split, pre }),
         1 => flank(m, 70).prop_map(|junk| Repr::Refilled { junk }),
+        1 => (pre_flank(m), flank(m, 3)).prop_map(|(pre, post)| Repr::CollectedSlices { pre, post }),
         1 => (0..64u8).prop_map(|head| Repr::FromBitSlice { head }),
         1 => (pre_flank(m), any::<bool>()).prop_map(|(pre, cleared)| Repr::InsertedIntoEmpty { pre, cleared }),
         1 => (any::<u16>(), flank(m, 70)).prop_map(|(split, junk)| Repr::TruncExtend { split, junk }),
@@ -260,6 +262,43 @@ pub fn long_lens_bits(bits: usize, thorough: bool, seed: u64) -> Vec<usize> {
         v.push((1usize << 20) / bits + 1);
     }
     v
+}
+
+/// Symbol positions of an `n`-symbol sequence of `bits`-wide symbols that sit on or next to a
+/// power-of-two block boundary (2^11 … 2^18 bits, or that many symbols), counted from the start and
+/// from the end: where block-wise code loses or repeats a bit, a symbol or a word.
+pub fn boundary_positions(n: usize, bits: usize) -> Vec<usize> {
+    let total = n * bits;
+    let mut v: Vec<usize> = vec![];
+    for k in 11..=18u32 {
+        let b = 1usize << k;
+        for d in [-1i64, 0, 1] {
+            // bit units
+            for x in [b as i64 + d, total as i64 - b as i64 + d, total as i64 - b as i64 - 1 + d] {
+                if x >= 0 && (x as usize) < total {
+                    v.push(x as usize / bits);
+                }
+            }
+            // symbol units
+            for x in [b as i64 + d, n as i64 - b as i64 + d] {
+                if x >= 0 && (x as usize) < n {
+                    v.push(x as usize);
+                }
+            }
+        }
+    }
+    v.sort();
+    v.dedup();
+    v
+}
+
+/// `a` with the symbol at `p` replaced (built from slices of `a`, so that long operands stay cheap)
+pub fn with_symbol<C: crate::codecs::Cm>(a: &bio_seq::prelude::Seq<C>, p: usize, sym: C) -> bio_seq::prelude::Seq<C> {
+    let mut b = bio_seq::prelude::Seq::<C>::with_capacity(a.len());
+    b.append(&a[..p]);
+    b.push(sym);
+    b.append(&a[p + 1..]);
+    b
 }
 
 pub fn long_len(thorough: bool) -> BoxedStrategy<usize> {
